@@ -45,15 +45,17 @@ Proof.
   set (doy := doe - (365 * yoe + yoe / 4 - yoe / 100)).
   set (mp := (5 * doy + 2) / 153).
   destruct (mp <? 10); [destruct (mp + 3 <=? 2)|destruct (mp - 9 <=? 2)];
-    (apply f_equal2; [apply f_equal2; [ring|reflexivity]|reflexivity]).
+    (f_equal; f_equal; clearbody yoe; lia).
 Qed.
 
 Lemma days_shift y m d k : days_of_civil (y + 400 * k) m d = days_of_civil y m d + 146097 * k.
 Proof.
   unfold days_of_civil.
   destruct (m <=? 2).
-  - replace (y + 400 * k - 1) with (y - 1 + k * 400) by ring. rewrite Z.div_add by lia. ring.
-  - replace (y + 400 * k) with (y + k * 400) by ring. rewrite Z.div_add by lia. ring.
+  - replace (y + 400 * k - 1) with (y - 1 + k * 400) by ring. rewrite Z.div_add by lia.
+    replace (y - 1 + k * 400 - ((y - 1) / 400 + k) * 400) with (y - 1 - (y - 1) / 400 * 400) by ring. ring.
+  - replace (y + 400 * k) with (y + k * 400) by ring. rewrite Z.div_add by lia.
+    replace (y + k * 400 - (y / 400 + k) * 400) with (y - y / 400 * 400) by ring. ring.
 Qed.
 
 Lemma dim_shift y m k : days_in_month (y + 400 * k) m = days_in_month y m.
